@@ -26,6 +26,7 @@ type Opts struct {
 	StepCap      uint64 // model's own cap on evaluations (0 = 3e6): beyond it the case is skipped
 	MaxEvents    int    // cap on recorded events (0 = 100000), same meaning as mon.Trace.Max
 	DetectReentry bool  // abort when a rule is re-entered at an offset where it is active
+	Init          int   // >0: the state store starts as mon.InitialState(Init)
 	LR            bool  // left recursion supported: left-recursive rules denote the left-associative iteration
 }
 
@@ -194,6 +195,9 @@ func Run(g *gast.Grammar, in []byte, o Opts) (res *Result) {
 	var st *state
 	if it.usesState {
 		st = &state{m: map[string]any{}}
+		if o.Init > 0 {
+			st = &state{m: mon.InitialState(o.Init)}
+		}
 	}
 	finalState := st
 	ok, end, val := false, 0, any(nil)
